@@ -26,6 +26,13 @@ Tie.
    family 'constant background differing inside a cluster' (background='const',
    a cluster of >= 2 features whose constant background values differ) checks
    that both closures read the cluster's background level from the same place.
+   The family 'evaluation protocol' drives ONE pair of closures through generated
+   call sequences (work array updated in place, views, fresh arrays, repeated
+   points, residual/jacobian in any order, twin closures of the same FitFunctions
+   object in between, returned gradient overwritten, in-place difference loop):
+   every call must equal a single evaluation of brand-new closures at a fresh
+   copy of the vector -- the gradient is the derivative of the residual at the
+   vector it is GIVEN, whatever was evaluated before and whatever array holds it.
 """
 import os, sys, json, subprocess, hashlib, itertools, math
 import numpy as np
@@ -818,6 +825,282 @@ GRAD_CORPUS = [
 
 
 # ----------------------------------------------------------------------------
+# gradient: evaluation protocols (one pair of closures, many evaluations)
+# ----------------------------------------------------------------------------
+# The property speaks about the vector the closures are GIVEN.  Everything above evaluates a pair of closures on fresh
+# copies, one point after the other.  Here one pair of closures is driven through a generated multi-step sequence the
+# way optimisers / hand-written difference loops drive an objective: the vector lives in a work array that is updated
+# in place (overwritten, or one component stepped), is a row of a 2-d array, a strided view, a fresh array, or is
+# evaluated again unchanged; residual and jacobian are called in a generated order; a twin pair of closures made by
+# the SAME FitFunctions object from different data is called in between; the array jacobian() returned is scribbled
+# on.  Every single call must (a) leave the vector it was given untouched and (b) return what a single evaluation of
+# brand-new closures (new FitFunctions, copies of the data) returns for a fresh copy of that vector.  At the end the
+# in-place central-difference loop x[i] = p[i] +- h is run on the work array and compared with jacobian(x).
+PRESENTATIONS = ['overwrite', 'overwrite', 'step-one', 'step-one', 'again', 'fresh', 'row-view', 'strided']
+PRESENT_TEXT = {'overwrite': 'work array overwritten in place (x[:] = v)', 'step-one': 'one component of the current array stepped in place',
+                'again': 'unchanged array evaluated again', 'fresh': 'fresh array', 'row-view': 'row of a 2-d work array rewritten in place',
+                'strided': 'strided view rewritten in place'}
+CALLS = ['r', 'j', 'rj', 'jr', 'rjr', 'jrj', 'rr', 'jj']
+CALLS_TWIN = ['rJ', 'jR', 'rRj', 'jJr', 'RrJj', 'Jr', 'Rj']
+PROTOCOL_RTOL = 1e-12
+
+
+def gen_protocol(rng, tier):
+    """family 'evaluation protocol': a problem as in gen_problem (with a non-empty optimisation vector) plus a sequence
+    of 3-7 steps; each step = how the next vector is presented x which closures are called in which order."""
+    cfg = gen_problem(rng, tier)
+    pm = cfg['param_mode']
+    if all(v == 'const' for v in pm.values()):
+        pm['signal'] = rng.choice(MODES[1:])
+    twin = rng.random() < 0.35
+    steps = [dict(present='overwrite', calls=rng.choice(CALLS))]
+    for _ in range(rng.randint(2, 6)):
+        steps.append(dict(present=rng.choice(PRESENTATIONS), calls=rng.choice(CALLS_TWIN if twin and rng.random() < 0.6 else CALLS)))
+    if not any(s['present'] in ('overwrite', 'step-one', 'row-view', 'strided') for s in steps[1:]):
+        steps.append(dict(present=rng.choice(['overwrite', 'step-one']), calls=rng.choice(CALLS)))
+    cfg['protocol'] = dict(seed=rng.randrange(1 << 30), steps=steps, twin=twin, scribble=rng.random() < 0.5,
+                           fd=rng.random() < 0.5, rel=rng.choice([0.03, 0.01, 0.003]))
+    return cfg
+
+
+class ClosurePair:
+    """closures under test + the data to build brand-new reference closures from"""
+    def __init__(self, ls, cfg, ff, images, meshes, masks, params, groups):
+        self.ls, self.cfg, self.ff = ls, cfg, ff
+        self.data = ([np.array(a) for a in images], [np.array(a) for a in meshes], [np.array(a) for a in masks], np.array(params),
+                     json.loads(json.dumps(groups)))
+        self.residual, self.jacobian = ff.get_residual(images, meshes, masks, params, groups, cfg['norm'])
+        self.held = (images, meshes, masks, params)
+        self.cache = {}
+
+    def reference(self, kind, point):
+        """single evaluation of new closures (new FitFunctions object, copies of the data) at a fresh copy of point"""
+        import warnings
+        key = (kind, point.tobytes())
+        if key not in self.cache:
+            with warnings.catch_warnings():
+                warnings.simplefilter('ignore')
+                ff2 = self.ls.FitFunctions(self.cfg['fit'], self.cfg['ndim'], self.cfg['iso'], dict(self.cfg['param_mode']))
+            im, me, mk, pa, gr = self.data
+            r, j = ff2.get_residual([a.copy() for a in im], [a.copy() for a in me], [a.copy() for a in mk], pa.copy(),
+                                    json.loads(json.dumps(gr)), self.cfg['norm'])
+            v = np.array(point, dtype=float)
+            self.cache[key] = float(r(v)) if kind == 'r' else np.array(j(v), dtype=float)
+        return self.cache[key]
+
+    def data_untouched(self):
+        return all(len(a) == len(b) and all(np.array_equal(x, y, equal_nan=True) for x, y in zip(a, b))
+                   for a, b in zip(self.held[:3], self.data[:3])) and np.array_equal(self.held[3], self.data[3])
+
+
+def same_value(a, b):
+    a, b = np.atleast_1d(np.asarray(a, dtype=float)), np.atleast_1d(np.asarray(b, dtype=float))
+    if a.shape != b.shape or not np.array_equal(np.isnan(a), np.isnan(b)):
+        return False
+    scale = float(np.nanmax(np.abs(b))) if np.any(~np.isnan(b)) else 0.0
+    return bool(np.allclose(a, b, rtol=PROTOCOL_RTOL, atol=PROTOCOL_RTOL * scale, equal_nan=True))
+
+
+def ring_degenerate(cfg, ff, params, groups0, meshes, masks, margin=1e-3):
+    """a masked pixel within margin of the r = 1 cut of the ring model at these parameters"""
+    if cfg['fit'] != 'ring':
+        return False
+    ndim = cfg['ndim']
+    for g, mesh, mk in zip(groups0, meshes, masks):
+        for i, m in zip(g, mk):
+            d2 = ((mesh[:, m] - params[i, 2:2 + ndim][:, None]) ** 2).sum(0)
+            if d2.size and np.abs(d2 - 1).min() < margin:
+                return True
+    return False
+
+
+def check_protocol(chk, cfg):
+    from trackpy.refine import least_squares as ls
+    try:
+        ff, images, meshes, masks, params, groups, groups0 = build_problem(cfg)
+    except Exception as e:
+        chk.tally('protocol: problem construction failed (%s)' % type(e).__name__)
+        return
+    rec = dict(kind='protocol', cfg=cfg)
+    try:
+        _check_protocol(chk, cfg, ls, ff, images, meshes, masks, params, groups, groups0, rec)
+    except Exception as e:
+        chk.violation('evaluation protocol: residual / jacobian raised in a call sequence on admissible vectors',
+                      'a call of the sequence raised %r for %s %dD modes=%s' % (e, cfg['fit'], cfg['ndim'], dict(zip(ff.params, ff.modes))), rec)
+
+
+def _check_protocol(chk, cfg, ls, ff, images, meshes, masks, params, groups, groups0, rec):
+    proto = cfg['protocol']
+    ndim = cfg['ndim']
+    vect0 = np.asarray(ls.vect_from_params(params, ff.modes, groups), dtype=float)
+    nv = len(vect0)
+    chk.count(('protocol', json.dumps(cfg, sort_keys=True)), nv >= 3)
+    if nv == 0:
+        chk.tally('protocol: empty optimisation vector')
+        return
+    main = ClosurePair(ls, cfg, ff, images, meshes, masks, params, groups)
+    if main.jacobian is None:
+        chk.violation('gradient: get_residual returned no jacobian for %s' % cfg['fit'], 'has_jacobian False', rec)
+        return
+    pairs = {'r': (main, 'r'), 'j': (main, 'j')}
+    if proto['twin']:
+        # second pair of closures from the SAME FitFunctions object: other image values, other constants
+        const = [j for j, m in enumerate(ff.modes) if m == 0 and ff.params[j] not in ff.pos_columns]
+        params_t = params.copy()
+        params_t[:, const] = params_t[:, const] * 1.07 + 0.013
+        twin = ClosurePair(ls, cfg, ff, [im * 0.5 + 3.0 for im in images], [m.copy() for m in meshes], [m.copy() for m in masks],
+                           params_t, json.loads(json.dumps(groups)))
+        pairs.update({'R': (twin, 'r'), 'J': (twin, 'j')})
+        chk.tally('protocol: twin closures of the same FitFunctions object interleaved')
+    nprng = np.random.default_rng(proto['seed'])
+    rel = proto['rel']
+
+    def new_point():
+        d = nprng.uniform(0.15, 1.0, nv) * nprng.choice([-1.0, 1.0], nv) * rel
+        return vect0 * (1 + d) + np.where(np.abs(vect0) < 0.5, d, 0.0)
+
+    work = np.empty(nv)
+    grid = np.zeros((3, nv))
+    wide = np.zeros(2 * nv + 1)
+    arr, history = None, []
+    failed = [False]
+
+    def call(letter, arr, where):
+        pair, kind = pairs[letter]
+        before = np.array(arr, dtype=float)
+        out = pair.residual(arr) if kind == 'r' else pair.jacobian(arr)
+        name = 'residual' if kind == 'r' else 'jacobian'
+        who = name if letter.islower() else name + ' of the twin closures'
+        history.append('%s@%s' % (letter, where))
+        chk.tally('protocol call: %s' % name)
+        if not np.array_equal(arr, before):
+            failed[0] = True
+            chk.violation('evaluation protocol: %s modified the vector it was given' % name,
+                          '%s changed its argument from %s to %s' % (who, before.tolist(), np.asarray(arr).tolist()),
+                          dict(rec, calls_so_far=list(history)))
+            return None
+        got = float(out) if kind == 'r' else np.array(out, dtype=float)
+        want = pair.reference(kind, before)
+        if kind == 'j' and proto['scribble']:
+            try:
+                np.asarray(out)[...] = -7.25        # what an optimiser may do with the gradient it was handed
+            except (ValueError, TypeError):
+                pass
+        if not same_value(got, want):
+            failed[0] = True
+            k = int(np.nanargmax(np.abs(np.atleast_1d(got) - np.atleast_1d(want)))) if np.shape(got) == np.shape(want) else 0
+            chk.violation('evaluation protocol: %s(vect) differs from a single evaluation of new closures at the same vector (%s)' % (
+                              name, PRESENT_TEXT.get(where, where)),
+                          '%s(x) = %.12g but new closures give %.12g at the same x (component %d; x = %s; x presented as: %s; calls so far '
+                          '[closure+presentation]: %s); %s %dD %s modes=%s' % (
+                              who, np.atleast_1d(got)[k], np.atleast_1d(want)[k], k, before.tolist(), PRESENT_TEXT.get(where, where),
+                              ' '.join(history), cfg['fit'], ndim, 'iso' if cfg['iso'] else 'aniso', dict(zip(ff.params, ff.modes))),
+                          dict(rec, x=before.tolist(), got=np.atleast_1d(got).tolist(), expected=np.atleast_1d(want).tolist(),
+                               calls_so_far=list(history)))
+            return None
+        return got
+
+    for step in proto['steps']:
+        pres = step['present']
+        if arr is None:
+            pres = 'overwrite'
+        if pres == 'overwrite':
+            work[:] = new_point(); arr = work
+        elif pres == 'step-one':          # whatever array currently holds the vector
+            i = int(nprng.integers(0, nv))
+            arr[i] += (abs(arr[i]) + 0.5) * rel * (1 if nprng.random() < 0.5 else -1) * nprng.uniform(0.2, 1.0)
+        elif pres == 'fresh':
+            arr = new_point()
+        elif pres == 'row-view':
+            arr = grid[1]; arr[:] = new_point()
+        elif pres == 'strided':
+            arr = wide[1::2]; arr[:] = new_point()
+        # 'again': arr stays as it is
+        chk.tally('protocol step: ' + PRESENT_TEXT[pres])
+        for letter in step['calls']:
+            if letter not in pairs:
+                letter = letter.lower()
+            call(letter, arr, pres)
+            if failed[0]:
+                return
+    # the hand-written central-difference loop on the work array, in place
+    if proto['fd']:
+        x = work
+        if arr is not work:
+            x[:] = np.asarray(arr)
+        point = x.copy()
+        pnow = ls.vect_to_params(point, params, ff.modes, groups)
+        analytic = call('j', x, 'difference loop: base point')
+        if failed[0]:
+            return
+        h = 1e-5
+        numeric = np.zeros(nv)
+        r0 = main.reference('r', point)
+        for i in range(nv):
+            x[i] = point[i] + h
+            fp = call('r', x, 'difference loop: x[i] = p[i] + h in place')
+            if failed[0]:
+                return
+            x[i] = point[i] - h
+            fm = call('r', x, 'difference loop: x[i] = p[i] - h in place')
+            if failed[0]:
+                return
+            x[i] = point[i]
+            numeric[i] = (fp - fm) / (2 * h)
+        chk.tally('protocol: in-place central-difference loop on the work array')
+        if ring_degenerate(cfg, ff, pnow, groups0, meshes, masks):
+            chk.tally('protocol: difference loop not compared with jacobian, a pixel sits on the r=1 cut of the ring model')
+        else:
+            scale = max(np.abs(analytic).max(), np.abs(numeric).max())
+            tol = 2e-6 * scale + 200 * 2.2e-16 * abs(r0) / h
+            err = np.abs(analytic - numeric)
+            if not np.all(np.isfinite(analytic)) or err.max() > tol:
+                k = int(np.nanargmax(err)) if np.all(np.isfinite(err)) else 0
+                owner = component_owner(ff, params.shape[0], groups, k)
+                chk.violation('gradient: jacobian differs from the derivative of residual (%s, %s)' % (cfg['fit'], owner),
+                              'jacobian(x)[%d]=%.10g but the in-place central difference of residual at x = %.10g (tol %.3g); component = %s; '
+                              'x = %s (a stepped, not mode-consistent start point); %s %dD %s modes=%s' % (
+                                  k, analytic[k], numeric[k], tol, owner, point.tolist(), cfg['fit'], ndim, 'iso' if cfg['iso'] else 'aniso',
+                                  dict(zip(ff.params, ff.modes))),
+                              dict(rec, vect=point.tolist(), jacobian=analytic.tolist(), central_difference=numeric.tolist(), component=k))
+                return
+    for pair in set(p for p, _ in pairs.values()):
+        if not pair.data_untouched():
+            chk.violation('evaluation protocol: the closures modified the sub-images / meshes / masks / constant parameters they were built from',
+                          'images, meshes, masks or params_const differ after the call sequence %s' % ' '.join(history), rec)
+            return
+    if sum(1 for s in chk.coverage['samples'] if s.get('kind') == 'protocol') < 1:
+        chk.sample(dict(kind='protocol', cfg=cfg, n_vector=nv, calls=len(history)), maxn=6)
+
+
+PROTOCOL_CORPUS = [
+    # an optimiser's work array: jacobian and residual at x, x updated in place, both again
+    dict(fit='gauss', ndim=2, iso=True, cluster_sizes=[1], param_mode=dict(signal='var', background='cluster', pos='var', size='var'),
+         radius=[4, 4], use_groups=False, norm=1.0, seed=31,
+         protocol=dict(seed=1, twin=False, scribble=False, fd=True, rel=0.02,
+                       steps=[dict(present='overwrite', calls='jr'), dict(present='overwrite', calls='jr'), dict(present='step-one', calls='r'),
+                              dict(present='step-one', calls='j'), dict(present='again', calls='rj')])),
+    # 3-D anisotropic dimer, size shared in the cluster; views and fresh arrays mixed
+    dict(fit='gauss', ndim=3, iso=False, cluster_sizes=[2], param_mode=dict(signal='var', background='cluster', pos='var', size='cluster'),
+         radius=[3, 4, 4], use_groups=True, norm=1.0, seed=32,
+         protocol=dict(seed=2, twin=False, scribble=True, fd=True, rel=0.015,
+                       steps=[dict(present='overwrite', calls='r'), dict(present='row-view', calls='jr'), dict(present='row-view', calls='rj'),
+                              dict(present='fresh', calls='j'), dict(present='strided', calls='rj'), dict(present='strided', calls='jr')])),
+    # two clusters of rings, global signal and thickness, twin closures of the same FitFunctions object in between
+    dict(fit='ring', ndim=2, iso=True, cluster_sizes=[1, 1], param_mode=dict(signal='global', background='cluster', pos='var', size='var', thickness='global'),
+         radius=[5, 5], use_groups=True, norm=1.0, seed=33,
+         protocol=dict(seed=3, twin=True, scribble=True, fd=True, rel=0.01,
+                       steps=[dict(present='overwrite', calls='rJ'), dict(present='step-one', calls='jR'), dict(present='overwrite', calls='RrJj'),
+                              dict(present='again', calls='Jr')])),
+    # constants in the vector's complement; only one fitted parameter
+    dict(fit='gauss', ndim=2, iso=False, cluster_sizes=[3], param_mode=dict(signal='const', background='const', pos='const', size_y='global', size_x='const'),
+         radius=[3, 5], use_groups=True, norm=7.5, seed=34, bg_style='independent',
+         protocol=dict(seed=4, twin=True, scribble=False, fd=True, rel=0.03,
+                       steps=[dict(present='overwrite', calls='j'), dict(present='step-one', calls='j'), dict(present='step-one', calls='rRr')])),
+]
+
+
+# ----------------------------------------------------------------------------
 def run(chk):
     common.quiet_trackpy()
     built = build(chk)
@@ -840,6 +1123,11 @@ def run(chk):
     for _ in range(ng // 3):
         chk.tally('gradient family: constant background differing inside a cluster (generated)')
         check_gradient(chk, gen_problem_const_bg(rng, chk.tier), 'const-bg')
+    for cfg in PROTOCOL_CORPUS:
+        check_protocol(chk, json.loads(json.dumps(cfg)))
+    for _ in range(ng // 3):
+        chk.tally('gradient family: evaluation protocol (generated call sequences on one pair of closures)')
+        check_protocol(chk, gen_protocol(rng, chk.tier))
     chk.coverage['rule'] = (
         "packing: corpus + every mode vector over {const,var,global,cluster} for n_vars<=3 (quick) / <=5 (thorough), sampled 4-5 column vectors and custom "
         "group modes 4/5, x random partitions of 1-6 rows x operation in {None,sum,min,max} x consistent/arbitrary integer arrays; 20% malformed stream "
@@ -852,6 +1140,18 @@ def run(chk):
         "cluster's column by the two closures), at least one fitted non-background parameter, groups given or None; in the general stream a const "
         "background takes one of these styles or 'equal' uniformly (tallied as 'gradient constant background: ...'); jacobian vs central differences (h=1e-5) of residual in every component; "
         "non-trivial = optimisation vector with >= 3 components; plus each d-function vs central differences of its function at random points. "
+        "family 'evaluation protocol' (1/3 of the random stream again, + 4 corpus entries): ONE pair of closures from get_residual is driven through a "
+        "generated sequence of 3-7 steps; each step presents the next vector (start vector with every component moved by 0.05-3%) as: the same work "
+        "array overwritten in place / one component of the current array stepped in place / the unchanged array again / a fresh array / a row of a 2-d "
+        "array rewritten in place / a strided view rewritten in place, and calls residual and jacobian in a generated order (r, j, rj, jr, rjr, jrj, "
+        "rr, jj); in 35% of the cases a twin pair of closures built by the SAME FitFunctions object from other image values and constants is called "
+        "in between on the same array; in 50% the array returned by jacobian is overwritten by the caller; every call must leave its argument "
+        "untouched and return (rel. 1e-12) what a single evaluation of brand-new closures (new FitFunctions, copies of the data) returns for a fresh "
+        "copy of that vector, i.e. the closures are functions of the VALUE of the vector they are given, not of the array object or the call "
+        "history; in 50% the sequence ends with the hand-written central-difference loop x[i] = p[i] +- h (h=1e-5) on the work array in place, "
+        "every residual of the loop compared as above and the loop's quotient compared with jacobian(x) at that stepped (not mode-consistent) "
+        "point (skipped + tallied if a pixel is within 1e-3 of the ring cut there); finally images / meshes / masks / params_const must be "
+        "unmodified; tallied as 'protocol step: ...', 'protocol call: ...'. "
         "distinct by content hash")
     chk.assumptions += [
         "Gen/fitpack.v is produced by tools/py2coq_fitpack.py (trusted translator, fail-closed) over the vocabulary Model/PyFitpack.v: numpy / dict "
@@ -888,6 +1188,9 @@ def replay(chk, path):
     elif kind == 'gradient':
         check_gradient(chk, r['cfg'], 'replay')
         print('replay: gradient configuration re-run')
+    elif kind == 'protocol':
+        check_protocol(chk, r['cfg'])
+        print('replay: call sequence on one pair of closures re-run')
     elif kind == 'fun-deriv':
         nprng = np.random.default_rng(0)
         check_scalar_functions(chk, nprng, 200)
@@ -898,3 +1201,5 @@ def replay(chk, path):
         check_scalar_functions(chk, nprng, 200)
         for cfg in GRAD_CORPUS:
             check_gradient(chk, dict(cfg), 'corpus')
+        for cfg in PROTOCOL_CORPUS:
+            check_protocol(chk, json.loads(json.dumps(cfg)))
